@@ -146,3 +146,30 @@ for dt in (DebugTrail.DISABLE, DebugTrail.FIRST, DebugTrail.ALL):
              params={"data": "D"}, requires=[ITERABLE], post=post, loops=D_LOOPS, clause_props=D_CP,
              cover=["returned", "raised"],
              notes=["the dumped object is an iterable (precondition: dumpers are applied to values of the declared type)"])
+
+
+# ---- which container the dumper builds: "Dumper produces the tuple (or list for list children)" -------------------------------------
+def _factory_scenarios(mod):
+    import typing
+
+    from adaptix._internal.type_tools import normalize_type
+    T_ = typing.TypeVar("T_")
+
+    class Stack(typing.List[T_]):
+        pass
+    out = []
+    for label, tp in (("list", typing.List[int]), ("list-child", Stack[int]), ("tuple", typing.Tuple[int, ...]), ("set", typing.Set[int]),
+                      ("sequence", typing.Sequence[int]), ("deque", typing.Deque[int])):
+        def factory(tp=tp):
+            return mod.IterableProvider._get_dumper_iter_factory, {"self": mod.IterableProvider(), "norm": normalize_type(tp)}, {
+                "opaque_res": lambda name, a, b: issubclass(a, b)}
+        out.append((label, factory))
+    return out
+
+
+contract(F, "IterableProvider._get_dumper_iter_factory", props=["C02", "C01"],
+         params={"self": ("const", None), "norm": "sym"}, opaque={"is_subclass_soft": (lambda m: m.is_subclass_soft, [])},
+         post={"raises-nothing": "returned",
+               "list-children-as-list": "implies(returned and truthy(opaque_res('is_subclass_soft', norm.origin, list)), result is norm.origin)",
+               "everything-else-as-tuple": "implies(returned and not truthy(opaque_res('is_subclass_soft', norm.origin, list)), result is tuple)"},
+         scenarios=_factory_scenarios, cover=["returned"])
